@@ -131,10 +131,16 @@ func (s *Supervisor) enter(g string, idx int) *GroupScan {
 	}
 	gs := w.scan.Groups[idx]
 	if w.gscan != gs || w.ctx != g {
+		if w.gscan != nil && w.gscan != gs {
+			w.gscan.TLeave = time.Now()
+		}
 		w.catchUp()
 		w.flushDescribeLines()
 		w.ctx = g
 		gs.Reached = true
+		if gs.TEnter.IsZero() {
+			gs.TEnter = time.Now()
+		}
 		w.gscan = gs
 		s.effectiveBounds(gs)
 	}
@@ -229,6 +235,9 @@ func (s *Supervisor) effectiveBounds(gs *GroupScan) {
 	}
 	gs.Dry = g.Dry || s.cfg.GlobalDry
 	gs.KnownAtList = s.w.known[g.ASG].clone()
+	if k := s.w.known[g.ASG]; k != nil && k.Ambiguous {
+		gs.KnownAmbiguous = true
+	}
 }
 
 var gaugeVecs = map[string]*prometheus.GaugeVec{
@@ -426,13 +435,16 @@ func (s *Supervisor) guard(f func() error) (out Outcome) {
 			default:
 				out.Panic = fmt.Sprint(r)
 				out.Stack = string(debug.Stack())
+				if m := unimplementedSDK(out.Stack); m != "" {
+					s.res.HarnessErr = "the code under test called " + m + ", which the simulated AWS does not implement"
+				}
 			}
 		}
 	}()
 	if err := f(); err != nil {
 		out.Err = err.Error()
 		out.ErrType = fmt.Sprintf("%T", err)
-		if ne, ok := err.(*cloudprovider.NodeNotInNodeGroup); ok {
+		if ne := asNotInGroup(err); ne != nil {
 			out.NotInGroupNode = ne.NodeName
 		}
 	}
@@ -489,6 +501,11 @@ func (s *Supervisor) runScan() *ScanRecord {
 	rec.Outcome = s.guard(func() error { return s.ctrl.RunOnce() })
 	w.flushDescribeLines()
 	rec.End = time.Now()
+	for _, gs := range rec.Groups {
+		if gs.Reached && (gs.TLeave.IsZero() || gs == w.gscan) {
+			gs.TLeave = rec.End
+		}
+	}
 	w.scan, w.gscan, w.ctx = nil, nil, ""
 	for _, gs := range rec.Groups {
 		if gs.Reached {
@@ -664,4 +681,24 @@ func runInBubble(spec RunSpec, stats *Stats, res *RunResult) {
 		}
 		s.ctrl = nil
 	}
+}
+
+
+// asNotInGroup finds the not-in-group error anywhere in err's chain (errors.Unwrap or pkg/errors' Cause):
+// how the code wraps it on the way up is its own business.
+func asNotInGroup(err error) *cloudprovider.NodeNotInNodeGroup {
+	for i := 0; err != nil && i < 32; i++ {
+		if ne, ok := err.(*cloudprovider.NodeNotInNodeGroup); ok {
+			return ne
+		}
+		switch e := err.(type) {
+		case interface{ Unwrap() error }:
+			err = e.Unwrap()
+		case interface{ Cause() error }:
+			err = e.Cause()
+		default:
+			return nil
+		}
+	}
+	return nil
 }
